@@ -52,6 +52,7 @@ impl IndRef for BollingerBands {
 	fn values(&mut self, c: &RC) -> Vec<Q> {
 		let s = source(c, &self.src);
 		let middle = self.mean.step(s);
+		// † follows the implementation: which deviation is not said; the crate's `StDev` is the sample one (n − 1)
 		let sd = self.var.step(s).sqrt();
 		let off = sd.scale(self.sigma);
 		vec![middle + off, middle, middle - off]
